@@ -15,15 +15,32 @@ is compared with (a) the dense matrices applied along every axis, in both orders
 composed along the axes in both orders; no smoothers -> data unchanged; dataSmooth linear in the result.
 
 The cut-off is discontinuous in maxdE*smear/dE: cases closer than 1e-6 to an integer are regenerated (tie guard).
+
+Widening (review): every 5th case draws one *special* smoother class: grids of 100-300 points (also multiples of 128) with the
+kernel reaching >= 100 points, kernels 20-1000 grid steps wide, integer-dtype grids and integer parameters (the documented call
+get_smoother(efermi, 300, "Fermi-Dirac")), maxdE = 0 (window of zero width: identity), cut-off *exactly* on a grid point in
+exact (integer / dyadic) arithmetic - the closed window of the existing oracle.  Constructor forms: maxdE positional / numpy
+scalar, all keywords, through get_smoother (positional / keywords).  Array forms: Fortran order, strided view, read-only,
+numpy-integer axis, an empty off-axis extent.  Part B: 0 and 4 energy axes, an axis with a single energy (void by
+get_smoother), an axis of 100-200 points, one smoother object shared by two axes, rank 3, tuples, set_smoother twice before the
+first reading; and *used* objects: .max / savetxt of the smoothed data, dataSmooth of every derived result (/, number*, -, + 0,
++ VoidResult, mul_array, transform; smoothing commutes with transform), in-place add after the smoothed data were read,
+file -> from_npz (no smoothers: unchanged) -> set_smoother, values returned earlier re-read at the end.
+Classes that fire on the unchanged tree are generated only with VERIF_C17_PENDING=1 (see PENDING below).
 """
 import os
 import sys
 
 sys.path.insert(0, os.path.dirname(os.path.dirname(os.path.abspath(__file__))))
-from vlib import env, harness  # noqa: E402
+from vlib import env, harness, monitors  # noqa: E402
 import numpy as np  # noqa: E402
+import shutil  # noqa: E402
+import tempfile  # noqa: E402
 
 PROP = "C17"
+# classes that fire on the unchanged tree (reported, not decided): second set_smoother after dataSmooth was read (stale cache),
+# descending grids (NaN), get_smoother(mode=None) (raises although documented), integer arrays (truncated), negative axis (raises)
+PENDING = os.environ.get("VERIF_C17_PENDING") == "1"
 RTOL = 1e-11
 KB_EV = 1.380649e-23 / 1.602176634e-19      # k_B / e  (both exact in the SI), eV per kelvin
 
@@ -32,9 +49,11 @@ def setup(ctx):
     env.import_wb()
     from wannierberri import smoother as sm
     from wannierberri.result import EnergyResult
+    from wannierberri.result.result import VoidResult
+    from wannierberri.symmetry import point_symmetry as ps
     from wannierberri.symmetry.point_symmetry import transform_ident
     import wannierberri
-    state = dict(sm=sm, EnergyResult=EnergyResult, ident=transform_ident, wb=wannierberri, log=[])
+    state = dict(sm=sm, EnergyResult=EnergyResult, VoidResult=VoidResult, ps=ps, ident=transform_ident, wb=wannierberri, log=[])
 
     # in-situ call counter of the convolution (does not change any value)
     orig = sm.AbstractSmoother.__call__
@@ -66,6 +85,10 @@ def dense_matrix(spec, E):
         return np.eye(NE)
     W = np.zeros((NE, NE))
     cut = spec["maxdE"] * spec["width_eV"]
+    if NE > 60:            # same definition, whole matrix at once (grids of 100+ points)
+        D = np.asarray(E, dtype=float)[None, :] - np.asarray(E, dtype=float)[:, None]
+        W = np.where(np.abs(D) <= cut, kernel(spec["kind"], D, spec["width_eV"]), 0.0)
+        return W / W.sum(axis=1)[:, None]
     for i in range(NE):
         for j in range(NE):
             d = E[j] - E[i]
@@ -81,7 +104,7 @@ def rtol_dense(E):
     spacing that the library (dE = E[1]-E[0]) and the reference (E_j-E_i) see differently.  Observed deviation is
     about 0.5 of that estimate; the tolerance is 2000 x the estimate (+1e-11), still < 1e-7 for every generated
     grid, i.e. far below the 1e-4..1e-1 effect of a wrong kernel / cut-off / normalisation."""
-    dE = (E[-1] - E[0]) / (len(E) - 1)
+    dE = abs(float(E[-1] - E[0])) / (len(E) - 1)
     return RTOL + 2e3 * 2.2e-16 * float(np.abs(E).max()) / dE
 
 
@@ -100,41 +123,150 @@ def gen_grid(rng, NE):
     return np.linspace(e0, e0 + span, NE)
 
 
-def gen_smoother(rng, sm, E, kind=None):
-    """-> (smoother object, spec).  Width relative to the grid step between 0.03 and 20 steps"""
+def build(rng, sm, kind, E, param, maxdE, forms, allow_get=True):
+    """construct the smoother in one of the documented call forms (recorded in `forms`)"""
+    cls = sm.FermiDiracSmoother if kind == "FermiDirac" else sm.GaussianSmoother
+    pname = "T_Kelvin" if kind == "FermiDirac" else "smear"
+    if maxdE is None:
+        r = rng.random()
+        if allow_get and r < 0.3:
+            mode = "Fermi-Dirac" if kind == "FermiDirac" else "Gaussian"
+            if rng.random() < 0.5:
+                forms.append("via_get_smoother")
+                return sm.get_smoother(E, param, mode)
+            forms.append("via_get_smoother_keywords")
+            return sm.get_smoother(mode=mode, smear=param, energy=E)
+        if r < 0.5:
+            forms.append("keywords")
+            return cls(**{"E": E, pname: param})
+        return cls(E, param)
+    r = int(rng.integers(5))
+    if r == 0:
+        forms.append("maxdE_positional")
+        return cls(E, param, maxdE)
+    if r == 1:
+        forms.append("maxdE_numpy_scalar")
+        return cls(E, param, maxdE=(np.int64(maxdE) if isinstance(maxdE, int) else np.float64(maxdE)))
+    if r == 2:
+        forms.append("keywords")
+        return cls(**{"maxdE": maxdE, pname: param, "E": E})
+    return cls(E, param, maxdE=maxdE)
+
+
+def draw_maxdE(rng):
+    r = rng.random()
+    if r < 0.3:
+        return None
+    if r < 0.6:
+        return int(rng.integers(1, 13))
+    if r < 0.95:
+        return float(10 ** rng.uniform(-0.7, 1.1))
+    return float(rng.uniform(15, 40))
+
+
+def gen_smoother(rng, sm, E, kind=None, wlog=(-1.5, 1.3), xrange=None):
+    """-> (smoother object, spec).  Width relative to the grid step between 0.03 and 20 steps (10**wlog); with `xrange` the
+    cut-off maxdE*width (in grid steps) is drawn from that interval instead"""
     if kind is None:
         kind = ["FermiDirac", "Gaussian", "Void"][int(rng.choice(3, p=[0.42, 0.42, 0.16]))]
     if kind == "Void":
-        return sm.VoidSmoother(), dict(kind="Void", NE1=0, maxdE=None, width_eV=None)
+        return sm.VoidSmoother(), dict(kind="Void", NE1=0, maxdE=None, width_eV=None, forms=[])
     NE = len(E)
     dE = (E[-1] - E[0]) / (NE - 1)
     for _ in range(100):
-        width = dE * 10 ** rng.uniform(-1.5, 1.3)
-        r = rng.random()
-        if r < 0.3:
-            maxdE = None
-        elif r < 0.6:
-            maxdE = int(rng.integers(1, 13))
-        elif r < 0.95:
-            maxdE = float(10 ** rng.uniform(-0.7, 1.1))
-        else:
-            maxdE = float(rng.uniform(15, 40))
+        width = dE * 10 ** rng.uniform(*wlog)
+        maxdE = draw_maxdE(rng)
         m = 8 if maxdE is None else maxdE
+        if xrange is not None:
+            width = dE * rng.uniform(*xrange) / m
         x = m * width / dE
         if abs(x - round(x)) > 1e-6 * max(1.0, x):      # tie guard on the cut-off
             break
     else:
         raise harness.Skip("tie")
-    kw = {} if maxdE is None else dict(maxdE=maxdE)
-    if kind == "FermiDirac":
-        T = width / KB_EV
-        obj = sm.FermiDiracSmoother(E.copy(), T, **kw)
-        param = T
-    else:
-        obj = sm.GaussianSmoother(E.copy(), width, **kw)
-        param = width
+    forms = []
+    param = width / KB_EV if kind == "FermiDirac" else width
+    obj = build(rng, sm, kind, E.copy(), param, maxdE, forms)
     return obj, dict(kind=kind, width_eV=float(width), maxdE=m, maxdE_given=maxdE, NE1=int(np.floor(x)), param=float(param),
-                     width_over_dE=float(width / dE))
+                     width_over_dE=float(width / dE), forms=forms)
+
+
+SPECIAL = ("big_grid", "wide_kernel", "int_grid", "int_param", "maxdE_zero", "dyadic_tie")
+
+
+def gen_special(rng, sm, cls):
+    """-> (E, smoother, spec) of one of the special classes (see the module docstring)"""
+    forms = [cls]
+    kind = ["FermiDirac", "Gaussian"][int(rng.integers(2))]
+    if cls == "big_grid":
+        NE = int(rng.choice([100, 128, 129, 200, 256, int(rng.integers(100, 301))]))
+        E = gen_grid(rng, NE)
+        S, spec = gen_smoother(rng, sm, E, kind=kind, wlog=(-0.5, 2.0), xrange=(100, NE - 2) if NE >= 110 and rng.random() < 0.6 else None)
+        spec["forms"] += forms
+        return E, S, spec
+    if cls == "wide_kernel":
+        E = gen_grid(rng, int(rng.integers(2, 41)))
+        S, spec = gen_smoother(rng, sm, E, kind=kind, wlog=(1.3, 3.0))
+        spec["forms"] += forms
+        return E, S, spec
+    NE = int(rng.integers(2, 41))
+    if cls == "maxdE_zero":
+        E = gen_grid(rng, NE)
+        dE = (E[-1] - E[0]) / (NE - 1)
+        width = dE * 10 ** rng.uniform(-1.5, 1.3)
+        maxdE = [0, 0.0][int(rng.integers(2))]
+        x = 0.0
+    elif cls == "dyadic_tie":
+        # Gaussian, every number a dyadic rational: maxdE*smear/dE is an integer in exact arithmetic and the grid point at the
+        # cut-off belongs to the window (closed interval, as everywhere in this check)
+        kind = "Gaussian"
+        dE = 2.0 ** -int(rng.integers(0, 5))
+        E = dE * (int(rng.integers(-40, 40)) + np.arange(NE))
+        q = int(rng.integers(0, 3))
+        t, pp = int(rng.integers(1, 4)), int(rng.integers(1, 5))
+        width = pp * dE / 2 ** q
+        maxdE = 2 ** q * t
+        if rng.random() < 0.5:
+            maxdE = float(maxdE)
+        x = float(t * pp)
+        assert maxdE * width / dE == x
+    else:
+        if cls == "int_grid":
+            step = int(rng.integers(1, 4))
+            E = int(rng.integers(-20, 21)) + step * np.arange(NE)           # integer dtype
+            assert E.dtype.kind == "i"
+        else:
+            step = rng.uniform(0.2, 2.0)
+            E = np.linspace(0, step * (NE - 1), NE) + rng.uniform(-10, 10)
+        dE = (E[-1] - E[0]) / (NE - 1)
+        for _ in range(100):
+            if kind == "Gaussian":
+                width = int(rng.integers(1, 9))
+                exact = cls == "int_grid"
+            else:
+                width = int(rng.integers(1500, 60000)) * KB_EV
+                exact = False
+            maxdE = draw_maxdE(rng)
+            if maxdE is not None and rng.random() < 0.7:
+                maxdE = int(np.ceil(maxdE))
+            m = 8 if maxdE is None else maxdE
+            x = m * width / dE
+            if (exact and isinstance(m, int)) or abs(x - round(x)) > 1e-6 * max(1.0, x):
+                break
+        else:
+            raise harness.Skip("tie")
+    if cls in ("int_grid", "int_param"):
+        param = int(round(width / KB_EV)) if kind == "FermiDirac" else width
+        assert isinstance(param, int)
+    else:
+        param = width / KB_EV if kind == "FermiDirac" else width
+    m = 8 if maxdE is None else maxdE
+    S = build(rng, sm, kind, E.copy(), param, maxdE, forms)
+    spec = dict(kind=kind, width_eV=float(width), maxdE=m, maxdE_given=maxdE, NE1=int(np.floor(x)), param=param,
+                width_over_dE=float(width / dE), forms=forms)
+    if x == round(x) and 1 <= x <= NE - 1:
+        forms.append("cutoff_exactly_on_grid_point")
+    return E, S, spec
 
 
 def rand_array(rng, shape, cplx, amp=None):
@@ -159,16 +291,24 @@ def count_spec(ctx, spec, NE):
         ctx.count("default_maxdE")
     elif spec["maxdE"] * 1.0 < 4:
         ctx.count("cutoff_inside_kernel_bulk(maxdE<4)")
+    for f in spec["forms"]:
+        ctx.count("form_" + f)
+    if NE >= 100 and 100 <= spec["NE1"] < NE - 1:
+        ctx.count("big_grid_kernel_reaches_100_or_more_points_inside_grid")
 
 
 # --------------------------------------------------------------------------------------------------
-def part_single(ctx, rng, st):
+def part_single(ctx, rng, st, special=None):
     sm = st["sm"]
-    NE = int(rng.integers(2, 41 if not ctx.thorough else 80))
-    if rng.random() < 0.15:
-        NE = int(rng.integers(2, 5))
-    E = gen_grid(rng, NE)
-    S, spec = gen_smoother(rng, sm, E)
+    if special is None:
+        NE = int(rng.integers(2, 41 if not ctx.thorough else 80))
+        if rng.random() < 0.15:
+            NE = int(rng.integers(2, 5))
+        E = gen_grid(rng, NE)
+        S, spec = gen_smoother(rng, sm, E)
+    else:
+        E, S, spec = gen_special(rng, sm, special)
+        NE = len(E)
     kind = spec["kind"]
     ndim = int(rng.integers(1, 5))
     axis = int(rng.integers(ndim))
@@ -180,9 +320,26 @@ def part_single(ctx, rng, st):
     cplx = bool(rng.random() < 0.4)
     A = rand_array(rng, shape, cplx)
     B = rand_array(rng, shape, cplx, amp=np.abs(A).max())
+    # the array as the caller may hold it: Fortran order, a strided view of a larger array, read-only
+    layout = ["C", "C", "F", "strided", "readonly"][int(rng.integers(5))]
+    big = big0 = None
+    if layout == "F":
+        A = np.asfortranarray(A)
+    elif layout == "strided":
+        big = rand_array(rng, tuple(2 * n for n in shape), cplx, amp=np.abs(A).max())
+        big[tuple(slice(None, None, 2) for _ in shape)] = A
+        big0 = big.copy()
+        A = big[tuple(slice(None, None, 2) for _ in shape)]
+    elif layout == "readonly":
+        A.setflags(write=False)
+    if layout != "C":
+        ctx.count("array_layout_" + layout)
     A0 = A.copy()
-    wit = dict(kind=kind, NE=NE, E0=E[0], E1=E[-1], shape=shape, axis=axis, complex=cplx,
-               **{k: v for k, v in spec.items() if k != "kind"})
+    if rng.random() < 0.2:
+        axis = np.int64(axis)
+        ctx.count("axis_numpy_integer")
+    wit = dict(kind=kind, NE=NE, E0=E[0], E1=E[-1], shape=shape, axis=int(axis), complex=cplx, layout=layout,
+               axis_type=type(axis).__name__, **{k: v for k, v in spec.items() if k != "kind"})
     scale = float(np.abs(A).max())
     W = dense_matrix(spec, E)
     tag = f"smoother[{kind}]"
@@ -230,8 +387,20 @@ def part_single(ctx, rng, st):
             ctx.close(tag + ":fibre!=1D_smoothing", out[tuple(idx)], S(fibre, axis=0), scale=scale, rtol=RTOL,
                       what=f"fibre {idx}", witness=wit)
     ctx.ev()
-    if not np.array_equal(A, A0):
+    if not np.array_equal(A, A0) or (big is not None and not np.array_equal(big, big0)):
         ctx.violation(tag + ":input_mutated", "the smoother modified its input", wit)
+    if spec["maxdE"] == 0 and kind != "Void":
+        ctx.close(tag + ":maxdE=0_not_identity", out, A0, scale=scale, rtol=RTOL, what="window of zero width", witness=wit)
+    if ndim >= 2 and rng.random() < 0.15:       # an empty off-axis extent
+        sh0 = list(shape)
+        sh0[(int(axis) + 1) % ndim] = 0
+        o0 = S(np.zeros(tuple(sh0)), axis=axis)
+        ctx.ev()
+        if getattr(o0, "shape", None) != tuple(sh0):
+            ctx.violation(tag + ":shape", f"empty input of shape {tuple(sh0)} -> {getattr(o0, 'shape', None)}", wit)
+        ctx.count("empty_off_axis_extent")
+    if PENDING:
+        pending_single(ctx, rng, st, S, E, spec, A0, out, axis, wit, tag)
     if kind == "Void":
         ctx.ev()
         if not np.array_equal(out, A0):
@@ -241,7 +410,7 @@ def part_single(ctx, rng, st):
     # get_smoother builds the same thing
     if kind != "Void" and spec["maxdE_given"] is None:
         mode = "Fermi-Dirac" if kind == "FermiDirac" else "Gaussian"
-        g = sm.get_smoother(E, spec["param"], mode)
+        g = sm.get_smoother(E, spec["param"], mode) if rng.random() < 0.7 else sm.get_smoother(smear=spec["param"], mode=mode, energy=E)
         ctx.ev()
         if type(g) is not type(S) or not (g == S):
             ctx.violation("get_smoother:different_smoother", f"get_smoother(E, {spec['param']}, {mode!r}) -> {g}", wit)
@@ -251,7 +420,8 @@ def part_single(ctx, rng, st):
         ctx.count("get_smoother_checks")
     if rng.random() < 0.2:
         for args in ((None, 0.1, "Gaussian"), (E, None, "Gaussian"), (E, 0.0, "Fermi-Dirac"), (E, -1.0, "Gaussian"),
-                     (E[:1], 0.1, "Fermi-Dirac")):
+                     (E[:1], 0.1, "Fermi-Dirac"), (E, 0, "Gaussian"), (E[:1], 300, "Fermi-Dirac"), (E[:0], 0.1, "Gaussian"),
+                     (None, None, None), (E, None, None), (E, -300, None)):
             g = sm.get_smoother(*args)
             ctx.ev()
             if not isinstance(g, sm.VoidSmoother) or not np.array_equal(g(A, axis=axis), A0):
@@ -259,54 +429,171 @@ def part_single(ctx, rng, st):
     return wit, spec
 
 
+def pending_single(ctx, rng, st, S, E, spec, A0, out, axis, wit, tag):
+    """classes that fire on the unchanged tree (VERIF_C17_PENDING=1): negative axis, integer arrays, mode=None, descending grid"""
+    sm = st["sm"]
+    kind = spec["kind"]
+    if kind == "Void":
+        return
+    ndim, shape, scale = A0.ndim, A0.shape, float(np.abs(A0).max())
+    W = dense_matrix(spec, E)
+    ctx.ev()
+    try:
+        ctx.close(tag + ":negative_axis", S(A0, axis=int(axis) - ndim), out, scale=scale, rtol=RTOL, what="axis counted from the end",
+                  witness=wit)
+    except ValueError as e:
+        ctx.violation(tag + ":negative_axis", f"axis={int(axis) - ndim} for a {ndim}-dimensional array raised ValueError: {e}", wit)
+    k = int(rng.integers(-50, 51))
+    Ci = np.full(shape, k)
+    ctx.close(tag + ":integer_constant_not_preserved", S(Ci, axis=axis), Ci, rtol=RTOL, what=f"constant integer array {k}",
+              witness=dict(wit, const=k))
+    Ai = rng.integers(-100, 101, size=shape)
+    ctx.close(tag + ":integer_array!=dense_convolution", S(Ai, axis=axis), apply_dense(W, Ai, int(axis)), scale=100.0,
+              rtol=rtol_dense(E), what="integer input", witness=wit)
+    ctx.ev()
+    try:
+        g = sm.get_smoother(E, spec["param"]) if rng.random() < 0.5 else sm.get_smoother(E, spec["param"], None)
+        if not isinstance(g, sm.VoidSmoother):
+            ctx.violation("get_smoother:mode_None", f"mode=None gave {g}", wit)
+    except ValueError as e:
+        ctx.violation("get_smoother:mode_None", f"the documented default mode=None raised ValueError: {e}", wit)
+    # descending grid: the kernel is even, so the reversed data on the reversed grid give the reversed result
+    Ed = E[::-1].copy()
+    Sd = build(rng, sm, kind, Ed, spec["param"], spec["maxdE_given"], [], allow_get=False)
+    rev = tuple(slice(None, None, -1) if i == int(axis) else slice(None) for i in range(ndim))
+    try:
+        with np.errstate(all="ignore"):
+            od = Sd(np.ascontiguousarray(A0[rev]), axis=axis)
+    except ValueError as e:
+        od = None
+        ctx.ev()
+        ctx.violation(tag + ":descending_grid", f"smoother on a descending grid raised ValueError: {e}", wit)
+    if od is not None:
+        ctx.close(tag + ":descending_grid", od[rev], out, scale=scale, rtol=RTOL, what="reversed data on the reversed grid", witness=wit)
+        ctx.close(tag + ":descending_grid", od, apply_dense(dense_matrix(spec, Ed), A0[rev], int(axis)), scale=scale,
+                  rtol=rtol_dense(E), what="descending grid vs dense matrix", witness=wit)
+    ctx.count("pending_single_checks")
+
+
+# --------------------------------------------------------------------------------------------------
+#  Part B
+# --------------------------------------------------------------------------------------------------
+def void_spec(**kw):
+    return dict(kind="Void", NE1=0, maxdE=None, width_eV=None, maxdE_given=None, forms=[], **kw)
+
+
+def read_txt(fn, ne, cplx):
+    """-> (energy columns, raw part, smoothed part) of a file written by EnergyResult.savetxt"""
+    rows = []
+    with open(fn) as f:
+        for line in f:
+            if line.startswith("#") or not line.strip():
+                continue
+            rows.append([float(x) for x in line.split()])
+    rows = np.array(rows)
+    vals = rows[:, ne:]
+    if cplx:
+        vals = vals[:, 0::2] + 1j * vals[:, 1::2]
+    n = vals.shape[1] // 2
+    return rows[:, :ne], vals[:, :n], vals[:, n:]
+
+
 def part_result(ctx, rng, st):
     sm = st["sm"]
     ER = st["EnergyResult"]
-    ne = int(rng.choice([1, 2, 3], p=[0.2, 0.45, 0.35]))
-    rank = int(rng.integers(0, 3))
-    NEs = [int(rng.integers(2, 13)) for _ in range(ne)]
-    if rng.random() < 0.3:
+    ps = st["ps"]
+    ne = int(rng.choice([0, 1, 2, 3, 4], p=[0.04, 0.18, 0.42, 0.31, 0.05]))
+    rank = int(rng.choice([0, 1, 2, 3], p=[0.31, 0.31, 0.31, 0.07]))
+    NEs = [int(rng.integers(2, 13 if ne < 4 else 7)) for _ in range(ne)]
+    if rng.random() < 0.3 and ne:
         NEs = [NEs[0]] * ne
+    special_axis = {}
+    if ne and rng.random() < 0.12:              # one axis with a single energy (e.g. one Fermi level)
+        i = int(rng.integers(ne))
+        NEs[i] = 1
+        special_axis[i] = "single"
+    if ne and rng.random() < 0.05:              # one long axis
+        i = int(rng.integers(ne))
+        if i not in special_axis:
+            NEs[i] = int(rng.choice([100, 128, 150, 200]))
+            special_axis[i] = "long"
+            rank = min(rank, 2 if ne < 3 else 1)
+    if ne == 4:
+        rank = min(rank, 1)
     Energies = [gen_grid(rng, N) for N in NEs]
     forced = None
-    if ne >= 2 and rng.random() < 0.5:
+    if ne >= 2 and (rng.random() < 0.5 or ne == 4):
         forced = ["FermiDirac", "Gaussian"]
     objs, specs = [], []
     for i, E in enumerate(Energies):
         k = None
         if forced is not None:
             k = forced[int(rng.integers(2))]
+        if special_axis.get(i) == "single":
+            # no smoothing is possible along one point: None, or what get_smoother returns for such a grid
+            o = [None, sm.get_smoother(E, 0.1, "Gaussian"), sm.get_smoother(E, 300, "Fermi-Dirac")][int(rng.integers(3))]
+            objs.append(o)
+            specs.append(void_spec(given_as_None=o is None))
+            continue
         if forced is None and rng.random() < 0.12:
             objs.append(None)                      # "no smoother given" for this axis
-            specs.append(dict(kind="Void", NE1=0, maxdE=None, width_eV=None, maxdE_given=None, given_as_None=True))
+            specs.append(void_spec(given_as_None=True))
             continue
-        o, s = gen_smoother(rng, sm, E, kind=k)
+        o, s = gen_smoother(rng, sm, E, kind=k, wlog=(-0.5, 2.0) if special_axis.get(i) == "long" else (0.0, 1.3) if ne == 4 else (-1.5, 1.3))
         objs.append(o)
         specs.append(s)
+    shared = False
+    if ne >= 2 and rng.random() < 0.12:           # the same grid on two axes and ONE smoother object for both
+        i, j = sorted(int(x) for x in rng.choice(ne, size=2, replace=False))
+        if specs[i]["kind"] != "Void" and j not in special_axis:
+            NEs[j], Energies[j], objs[j], specs[j] = NEs[i], Energies[i].copy(), objs[i], specs[i]
+            shared = True
+    # other smoothers on the same grids (set first, then replaced)
+    decoys = [(None if N < 2 else gen_smoother(rng, sm, E)[0]) for N, E in zip(NEs, Energies)]
     cplx = bool(rng.random() < 0.4)
     shape = tuple(NEs) + (3,) * rank
-    data = rand_array(rng, shape, cplx)
-    data2 = rand_array(rng, shape, cplx, amp=np.abs(data).max())
+    data = np.asarray(rand_array(rng, shape, cplx))
+    data2 = np.asarray(rand_array(rng, shape, cplx, amp=np.abs(data).max()))
     scale = float(np.abs(data).max())
     nonvoid = [i for i, s in enumerate(specs) if s["kind"] != "Void"]
     effective = [i for i in nonvoid if specs[i]["NE1"] >= 1]
-    wit = dict(n_energies=ne, NE=NEs, rank=rank, complex=cplx,
+    wit = dict(n_energies=ne, NE=NEs, rank=rank, complex=cplx, shared_object=shared,
                smoothers=[dict(kind=s["kind"], NE1=s["NE1"], maxdE=s["maxdE"], width_eV=s["width_eV"]) for s in specs])
+    tTR = [st["ident"], ps.transform_odd][int(rng.integers(2))]
+    tInv = [st["ident"], ps.transform_odd][int(rng.integers(2))]
+    made = []
 
-    def make(d):
-        how = int(rng.integers(3))
-        kw = dict(transformTR=st["ident"], transformInv=st["ident"])
+    def make(d, how=None):
+        how = int(rng.integers(6)) if how is None else how
+        kw = dict(transformTR=tTR, transformInv=tInv)
         if all(o is None for o in objs) and how == 0:
+            made.append("not_given")
             return ER([E.copy() for E in Energies], d.copy(), **kw)             # smoothers not given at all
         if how == 1:
+            made.append("set_smoother")
             r = ER([E.copy() for E in Energies], d.copy(), **kw)
             r.set_smoother(list(objs))
             return r
         if ne == 1 and how == 2:
+            made.append("bare")
             return ER(Energies[0].copy(), d.copy(), smoothers=objs[0], **kw)    # bare objects are accepted
+        if how == 3:
+            made.append("tuples")
+            return ER(tuple(E.copy() for E in Energies), d.copy(), smoothers=tuple(objs), **kw)
+        if how == 4:                                # smoothers replaced before the smoothed data are first read
+            made.append("set_smoother_twice")
+            if rng.random() < 0.5:
+                r = ER([E.copy() for E in Energies], d.copy(), smoothers=list(decoys), **kw)
+            else:
+                r = ER([E.copy() for E in Energies], d.copy(), **kw)
+                r.set_smoother(list(decoys))
+            r.set_smoother(tuple(objs) if rng.random() < 0.5 else list(objs))
+            return r
+        made.append("list")
         return ER([E.copy() for E in Energies], d.copy(), smoothers=list(objs), **kw)
 
     res = make(data)
+    ctx.count("result_built_by_" + made[-1])
     del st["log"][:]
     sm_data = res.dataSmooth
     ncalls = sum(1 for c in st["log"] if c[0] != "VoidSmoother")
@@ -317,12 +604,17 @@ def part_result(ctx, rng, st):
     if sm_data.shape != shape:
         ctx.violation("dataSmooth:shape", f"{sm_data.shape} != {shape}", wit)
         return wit
+    sm_first = sm_data.copy()
     Ws = [dense_matrix(s, E) for s, E in zip(specs, Energies)]
     rtd = RTOL + sum(rtol_dense(Energies[i]) for i in nonvoid)
+
+    def dense_ref(d, order=None):
+        for i in (range(ne) if order is None else order):
+            d = apply_dense(Ws[i], d, i)
+        return d
+
     for order, nm in ((list(range(ne)), "axis order 0..n"), (list(range(ne))[::-1], "axis order n..0")):
-        ref = data
-        for i in order:
-            ref = apply_dense(Ws[i], ref, i)
+        ref = dense_ref(data, order)
         ctx.close("dataSmooth!=dense_convolution_along_every_axis", sm_data, ref, scale=scale, rtol=rtd,
                   what="dataSmooth vs dense matrices, " + nm, witness=wit)
         comp = data
@@ -331,6 +623,10 @@ def part_result(ctx, rng, st):
                 comp = objs[i](comp, axis=i)
         ctx.close("dataSmooth!=composition_of_axis_smoothers", sm_data, comp, scale=scale, rtol=RTOL,
                   what="dataSmooth vs composed __call__, " + nm, witness=wit)
+    if ne >= 3:                                   # a mixed order as well
+        order = [int(x) for x in rng.permutation(ne)]
+        ctx.close("dataSmooth!=dense_convolution_along_every_axis", sm_data, dense_ref(data, order), scale=scale, rtol=rtd,
+                  what=f"dataSmooth vs dense matrices, axis order {order}", witness=wit)
     if not nonvoid:
         ctx.ev()
         if not np.array_equal(sm_data, data):
@@ -346,14 +642,164 @@ def part_result(ctx, rng, st):
         ctx.count("dataSmooth_two_or_more_nonvoid")
     if len(effective) >= 2:
         ctx.count("dataSmooth_two_or_more_effective(NE1>=1)")
-    if len(effective) == 3:
+    if len(effective) >= 3:
         ctx.count("dataSmooth_three_effective")
+    if len(effective) >= 4:
+        ctx.count("dataSmooth_four_effective")
+    if shared and len(effective) >= 2:
+        ctx.count("one_smoother_object_on_two_axes(effective)")
+    for i, what in special_axis.items():
+        others = [j for j in effective if j != i]
+        if what == "single" and others:
+            ctx.count("single_energy_axis_next_to_effective_smoother")
+        if what == "long" and i in effective:
+            ctx.count("long_axis_effective")
+    if rank == 3:
+        ctx.count("rank_3")
+
+    # ---- the smoothed data as the library itself uses them
+    ref = dense_ref(data)
+    if ne >= 1:
+        nsz = 2.0 * np.sqrt(ref.size)
+        ctx.close("EnergyResult.max!=norms_of_smoothed_data", res.max,
+                  [np.abs(ref).max(), np.linalg.norm(ref), np.linalg.norm(ref[1:] - ref[:-1])], scale=scale * nsz, rtol=rtd,
+                  what="max = (maxval, norm, norm of the differences) of the smoothed data", witness=wit)
+        ctx.count("max_checks")
+
+    # ---- derived results carry the smoothers: their smoothed data belong to THEIR raw data
+    c2 = float(rng.uniform(0.3, 3)) * (-1) ** int(rng.integers(2))
+    derived = [("__truediv__", lambda: res / c2, data / c2), ("__rmul__", lambda: c2 * res, c2 * data),
+               ("__mul__(int)", lambda: res * 3, data * 3),
+               ("__sub__", lambda: res - res2, data - data2), ("__add__(0)", lambda: res + 0, data),
+               ("__radd__(sum)", lambda: sum([res, res2]), data + data2),
+               ("__add__(VoidResult)", lambda: res + st["VoidResult"](), data), ("__add__(None)", lambda: res + None, data)]
+    if data.ndim >= 1:
+        nax = int(rng.integers(1, min(2, data.ndim) + 1))
+        axes = tuple(sorted(int(x) for x in rng.choice(data.ndim, size=nax, replace=False)))
+        arr = rng.uniform(0.5, 2, size=tuple(shape[a] for a in axes)) * (-1) ** rng.integers(2, size=tuple(shape[a] for a in axes))
+        full = arr.reshape(tuple(shape[a] if a in axes else 1 for a in range(data.ndim)))
+        derived.append((f"mul_array(axes={axes})", lambda: res.mul_array(arr, axes=(axes[0] if nax == 1 and rng.random() < 0.5 else axes)),
+                        data * full))
+        if axes[0] < ne:
+            ctx.count("mul_array_along_an_energy_axis")
+    picks = [derived[int(i)] for i in rng.choice(len(derived), size=3, replace=False)]
+    for nm, fn, raw in picks:
+        d = fn()
+        s_d = max(scale, float(np.abs(raw).max()))
+        ctx.close(f"EnergyResult.{nm.split('(')[0]}:raw_data", d.data, raw, scale=s_d, rtol=RTOL, what=nm + ".data", witness=wit)
+        ctx.close("dataSmooth_of_derived_result!=dense_convolution", d.dataSmooth, dense_ref(raw), scale=s_d, rtol=rtd,
+                  what=f"{nm}.dataSmooth", witness=dict(wit, operation=nm))
+        ctx.count("derived_result_checks")
+        if nonvoid:
+            ctx.count("derived_result_checks_nonvoid")
+    if data.ndim >= 1:
+        u = rng.normal(size=3)
+        sym = [lambda: ps.Rotation(int(rng.choice([2, 3, 4, 6])), u), lambda: ps.Mirror(u), lambda: ps.Inversion,
+               lambda: ps.TimeReversal, lambda: ps.PointSymmetry(-ps.Rotation(3, u).R, True),
+               lambda: ps.C4z * ps.Mx][int(rng.integers(6))]()
+        tr = res.transform(sym)
+        ctx.close("dataSmooth_of_derived_result!=dense_convolution", tr.dataSmooth, dense_ref(tr.data), scale=scale * 3 ** (rank / 2),
+                  rtol=rtd, what="transform(sym).dataSmooth", witness=dict(wit, operation="transform"))
+        # smoothing (energy axes) commutes with the transformation (tensor axes)
+        bare = ER([E.copy() for E in Energies], sm_first.copy(), transformTR=tTR, transformInv=tInv)
+        ctx.close("dataSmooth:does_not_commute_with_transform", tr.dataSmooth, bare.transform(sym).data, scale=scale * 3 ** (rank / 2),
+                  rtol=RTOL * 10, what="smooth(transform(x)) vs transform(smooth(x))", witness=wit)
+        ctx.count("transform_checks")
+        if nonvoid:
+            ctx.count("transform_checks_nonvoid")
+
+    # ---- in-place add on a result whose smoothed data were read before
+    r = make(data)
+    old = r.dataSmooth
+    if rng.random() < 0.5:
+        monitors.warm_caches(r)
+    r.add(res2)
+    ctx.close("dataSmooth_after_in_place_add!=dense_convolution", r.dataSmooth, dense_ref(data + data2), scale=2 * scale, rtol=rtd,
+              what="x.dataSmooth; x.add(y); x.dataSmooth", witness=wit)
+    ctx.close("dataSmooth:value_returned_earlier_changed", old, sm_first, scale=scale, rtol=0, atol=0,
+              what="the array returned before add()", witness=wit)
+    monitors.assert_no_stale_caches(ctx, r, "EnergyResult.add", wit)
+    ctx.count("in_place_add_after_read")
+    if nonvoid:
+        ctx.count("in_place_add_after_read_nonvoid")
+
+    # ---- files
+    if rng.random() < 0.3:
+        tmp = tempfile.mkdtemp(prefix="verif_c17_")
+        try:
+            if rng.random() < 0.6:
+                res.save(os.path.join(tmp, "r"))
+                ld = ER.from_npz(os.path.join(tmp, "r.npz"))
+                ld2 = ER.from_npz(os.path.join(tmp, "r.npz"))
+                ctx.ev()
+                if not np.array_equal(ld.dataSmooth, data):     # smoothers are not stored: a loaded result has none
+                    ctx.violation("dataSmooth:changed_without_smoothers", "a result loaded from npz (no smoothers) was changed", wit)
+                ld2.set_smoother(list(objs) if ne != 1 or rng.random() < 0.5 else objs[0])
+                ctx.close("dataSmooth_after_from_npz+set_smoother!=dense_convolution", ld2.dataSmooth, ref, scale=scale, rtol=rtd,
+                          what="save -> from_npz -> set_smoother -> dataSmooth", witness=wit)
+                ctx.count("npz_then_set_smoother")
+                if nonvoid:
+                    ctx.count("npz_then_set_smoother_nonvoid")
+                if PENDING:
+                    ld.set_smoother(list(objs))
+                    ctx.close("dataSmooth_after_second_set_smoother!=dense_convolution", ld.dataSmooth, ref, scale=scale, rtol=rtd,
+                              what="from_npz -> dataSmooth -> set_smoother -> dataSmooth", witness=wit)
+            elif data.ndim >= 1:
+                fn = os.path.join(tmp, "r.dat")
+                res.savetxt(fn)
+                en, raw, smo = read_txt(fn, ne, cplx)
+                ncomp = 3 ** rank
+                ctx.ev()
+                if raw.shape != (int(np.prod(NEs)), ncomp) or smo.shape != raw.shape:
+                    ctx.violation("savetxt:layout", f"{raw.shape} + {smo.shape} columns for data of shape {shape}", wit)
+                else:
+                    # printed with 7 significant digits
+                    for nm, got, want in (("raw", raw, data), ("smoothed", smo, ref)):
+                        want = want.reshape(raw.shape)
+                        err = np.abs(got - want)
+                        tol = 1.01e-6 * np.maximum(np.abs(want.real), np.abs(want.imag)) + rtd * scale
+                        ctx.ev()
+                        if np.any(err > tol):
+                            ctx.violation(f"savetxt:{nm}_columns!=dense_convolution" if nm == "smoothed" else "savetxt:raw_columns",
+                                          f"{nm} columns of the text file differ from the {nm} data by up to {err.max():.3e} "
+                                          f"(printed precision {tol.max():.1e})", wit)
+                ctx.count("savetxt_checks")
+                if effective:
+                    ctx.count("savetxt_checks_effective")
+        finally:
+            shutil.rmtree(tmp, ignore_errors=True)
+
+    if PENDING and ne >= 1:
+        # the same object asked again with other smoothers (second set_smoother after the smoothed data were read)
+        r = make(data)
+        r.dataSmooth
+        new = [(None if N < 2 else gen_smoother(rng, sm, E)) for N, E in zip(NEs, Energies)]
+        r.set_smoother([None if x is None else x[0] for x in new])
+        W2 = [np.eye(N) if x is None else dense_matrix(x[1], E) for x, N, E in zip(new, NEs, Energies)]
+        ref2 = data
+        for i in range(ne):
+            ref2 = apply_dense(W2[i], ref2, i)
+        rtd2 = RTOL + sum(rtol_dense(E) for x, E in zip(new, Energies) if x is not None and x[1]["kind"] != "Void")
+        ctx.close("dataSmooth_after_second_set_smoother!=dense_convolution", r.dataSmooth, ref2, scale=scale, rtol=rtd2,
+                  what="dataSmooth -> set_smoother(other) -> dataSmooth", witness=wit)
+        monitors.assert_no_stale_caches(ctx, r, "EnergyResult.set_smoother", wit)
+        ctx.count("pending_second_set_smoother")
+
+    # ---- values returned earlier stay valid; the first object was not changed by anything done since
+    ctx.close("dataSmooth:value_returned_earlier_changed", sm_data, sm_first, scale=scale, rtol=0, atol=0,
+              what="the array returned by the first reading, re-read at the end of the case", witness=wit)
+    ctx.close("dataSmooth:second_reading_differs", res.dataSmooth, sm_first, scale=scale, rtol=0, atol=0,
+              what="second reading of dataSmooth at the end of the case", witness=wit)
+    ctx.ev()
+    if not np.array_equal(res.data, data) or not np.array_equal(res2.data, data2):
+        ctx.violation("dataSmooth:data_mutated", "an operation on a result changed its (or its operand's) raw data", wit)
     return wit, tuple(s["kind"] for s in specs), len(effective)
 
 
 def case(ctx, rng, idx, state):
-    wit, spec = part_single(ctx, rng, state)
-    key = ("single", spec["kind"], min(spec["NE1"], 12), wit["NE"], len(wit["shape"]), wit["axis"], wit["complex"])
+    special = SPECIAL[(idx // 5) % len(SPECIAL)] if idx % 5 == 0 else None
+    wit, spec = part_single(ctx, rng, state, special)
+    key = ("single", spec["kind"], min(spec["NE1"], 12), wit["NE"], len(wit["shape"]), wit["axis"], wit["complex"], special)
     if spec["kind"] != "Void" and spec["NE1"] >= 1:
         ctx.nontrivial(key)
     out = part_result(ctx, rng, state)
@@ -370,22 +816,44 @@ if __name__ == "__main__":
         tiers=dict(quick=dict(cases=800, shards=8, time=900), thorough=dict(cases=30000, shards=16, time=3000)),
         rule="(A) one FermiDirac/Gaussian/Void smoother on an evenly spaced grid of 2-40 points, width 0.03-20 grid steps, "
              "maxdE default/int 1-12/float 0.2-40, array of 1-4 dims (equal extents in 30 %), random axis, real/complex; "
-             "(B) EnergyResult with 1-3 energy axes of 2-12 points, rank 0-2, every mix of FermiDirac/Gaussian/Void/None "
-             "smoothers given in the constructor, by set_smoother or as a bare object.  Non-trivial: the kernel "
+             "every 5th case one special class (grid of 100-300 points, kernel 20-1000 steps wide, integer grid, integer "
+             "parameter, maxdE=0, cut-off exactly on a grid point); constructor forms (positional / numpy scalar / keywords / "
+             "get_smoother), array layouts (C, F, strided view, read-only), numpy-integer axis; "
+             "(B) EnergyResult with 0-4 energy axes of 2-12 points (one axis with 1 or 100-200 points in 12 % / 5 %), rank 0-3, "
+             "every mix of FermiDirac/Gaussian/Void/None smoothers given in the constructor (list / tuple / bare), by "
+             "set_smoother (once / replacing earlier ones), one object on two axes; then .max, derived results, transform, "
+             "in-place add after reading, npz -> set_smoother, savetxt.  Non-trivial: the kernel "
              "reaches at least the neighbouring grid point (NE1>=1); distinct by (kind, NE1, grid size, ndim, axis, "
-             "dtype) resp. (smoother kinds, grid sizes, rank, dtype, NE1 per axis)",
+             "dtype, special class) resp. (smoother kinds, grid sizes, rank, dtype, NE1 per axis)",
         assumptions=["documented semantics: convolution with the kernel truncated at |dE| <= maxdE*smear and renormalised "
                      "over the grid points inside the window (so constants are preserved at the edges)",
                      "kT = T*k_B/e with the exact SI values; evenly spaced ascending grids only; float64/complex128 arrays "
-                     "(integer arrays are silently truncated by the library: outside the generated domain)",
-                     "tie guard: maxdE*smear/dE at least 1e-6 (relative) away from an integer",
+                     "(integer arrays are silently truncated by the library, descending grids give NaN, a negative axis and "
+                     "get_smoother(mode=None) raise: generated only with VERIF_C17_PENDING=1, reported as findings)",
+                     "tie guard: maxdE*smear/dE at least 1e-6 (relative) away from an integer, except where the quotient is an "
+                     "integer in exact arithmetic (integer / dyadic numbers): there the grid point at the cut-off is inside",
                      "tolerance 1e-11 of max|input| (of |c| for the constant array); for the dense reference "
-                     "+ 2000*eps*max|E|/dE (rounding of the grid spacing), < 1e-7 throughout"],
+                     "+ 2000*eps*max|E|/dE (rounding of the grid spacing), < 1e-7 throughout; text files to the printed 7 digits",
+                     "a second set_smoother after dataSmooth was read is generated only with VERIF_C17_PENDING=1 (stale cache)"],
         required_counters=("smoother_FermiDirac", "smoother_Gaussian", "smoother_Void", "rows_truncated_at_edges",
                            "kernel_wider_than_grid", "kernel_narrower_than_step(NE1=0)", "cutoff_inside_kernel_bulk(maxdE<4)",
                            "default_maxdE", "off_axis_perturbation_checks", "get_smoother_checks",
                            "dataSmooth_1_energy_axes", "dataSmooth_2_energy_axes", "dataSmooth_3_energy_axes",
                            "dataSmooth_two_or_more_nonvoid", "dataSmooth_two_or_more_effective(NE1>=1)",
                            "dataSmooth_three_effective", "dataSmooth_without_smoothers",
-                           "convolution_calls_inside_dataSmooth"),
+                           "convolution_calls_inside_dataSmooth",
+                           # widening
+                           "form_big_grid", "big_grid_kernel_reaches_100_or_more_points_inside_grid", "form_wide_kernel",
+                           "form_int_grid", "form_int_param", "form_maxdE_zero", "form_dyadic_tie",
+                           "form_cutoff_exactly_on_grid_point", "form_maxdE_positional", "form_maxdE_numpy_scalar",
+                           "form_keywords", "form_via_get_smoother", "form_via_get_smoother_keywords",
+                           "array_layout_F", "array_layout_strided", "array_layout_readonly", "axis_numpy_integer",
+                           "empty_off_axis_extent",
+                           "dataSmooth_0_energy_axes", "dataSmooth_4_energy_axes", "dataSmooth_four_effective",
+                           "single_energy_axis_next_to_effective_smoother", "long_axis_effective",
+                           "one_smoother_object_on_two_axes(effective)", "rank_3",
+                           "result_built_by_tuples", "result_built_by_set_smoother_twice", "result_built_by_bare",
+                           "max_checks", "derived_result_checks_nonvoid", "mul_array_along_an_energy_axis",
+                           "transform_checks_nonvoid", "in_place_add_after_read_nonvoid", "npz_then_set_smoother_nonvoid",
+                           "savetxt_checks_effective"),
     )
